@@ -230,6 +230,14 @@ def gen_decrypt_recover(g, honest):
             wk = mul(r.seckey(), G)       # an unrelated encryption key (edge-biased draw: may coincide with +-Y)
             g.recover(rr, ss, h['sig'], wk, 'recover_wrong_enckey', '#1 ' + h32(h['y']) if wk == h['Y'] else '#1 ' + h32(N - h['y']) if wk == neg(h['Y']) else '#0')
             g.recover(rr, ss, h['sig'], None, 'recover_bad_enckey_object', '#0 ILL1')
+            # encryption keys whose x coordinate differs from the real one in a single byte position (near misses of the comparison)
+            for pos in (31, 30, 16, 1, 0):
+                for delta in range(1, 40):
+                    xb = bytearray(b32(h['Y'][0])); xb[pos] ^= delta
+                    Y2 = lift_x(int.from_bytes(xb, 'big'))
+                    if Y2 is not None:
+                        g.recover(rr, ss, h['sig'], Y2, 'recover_enckey_x_near_miss', '#0'); g.recover(rr, ss, h['sig'], neg(Y2), 'recover_enckey_x_near_miss', '#0')
+                        break
         if i % 3 == 1:
             # unrelated ECDSA signatures: random, same s with another r, same r with another s
             g.recover(r.seckey(), r.seckey(), h['sig'], h['Y'], 'recover_unrelated_sig', '#0')
